@@ -192,16 +192,25 @@ def extract():
         thr_shake = contained(lambda e: job_with(_ProbeDaemon([], e))())
         thr_deny = contained(lambda e: job_with(_ProbeDaemon([], e)).denyConnection("no free workers"))
         # what happens after the request loop is left, in order (hook, close), also when the exception is not contained
+        def quietly(fn):
+            """run an observation probe; what it raises is not the point here (the `contained` lists record that)"""
+            try:
+                fn()
+            except BaseException as x:
+                if not isinstance(x, (Exception, KeyboardInterrupt, SystemExit)):
+                    raise
         d = _ProbeDaemon([], True, rep("connClosed"))
-        job_with(d)()
-        thread_finally = [x for x in d.log[d.log.index("handleRequest") + 1:] if x in ("_clientDisconnect", "close")]
+        quietly(job_with(d))
+        thread_finally = [x for x in d.log[d.log.index("handleRequest") + 1:] if x in ("_clientDisconnect", "close")] \
+            if "handleRequest" in d.log else ["(request loop not entered)"]
         thread_finally = [x for i, x in enumerate(thread_finally) if x not in thread_finally[:i]]
         d = _ProbeDaemon([], True, rep("baseOther"))
         try:
             job_with(d)()
         except SystemExit:
             pass
-        finally_always = [x for x in d.log[d.log.index("handleRequest") + 1:] if x in ("_clientDisconnect", "close")][:2] == thread_finally[:2]
+        finally_always = "handleRequest" in d.log and \
+            [x for x in d.log[d.log.index("handleRequest") + 1:] if x in ("_clientDisconnect", "close")][:2] == thread_finally[:2]
         if not finally_always:
             thread_finally = ["(not on every exit) "] + thread_finally
         # the refused connection is closed on every path
@@ -296,12 +305,12 @@ def extract():
                 job()
         log = []
         srv = acceptor(_ProbeListener(log), FullPool())
-        srv.events([srv.sock])
+        quietly(lambda: srv.events([srv.sock]))
         _retire(srv)
         deny_timeouts = [x[1] for x in log if isinstance(x, tuple) and x[0] == "handshake"]
         log = []
         srv = acceptor(_ProbeListener(log), InlinePool())
-        srv.events([srv.sock])
+        quietly(lambda: srv.events([srv.sock]))
         _retire(srv)
         serve_timeouts = [x[1] for x in log if isinstance(x, tuple) and x[0] == "handshake"]
         thr_timeout = deny_timeouts == [1.5] and serve_timeouts == [1.5]
@@ -335,13 +344,14 @@ def extract():
         log = []
         srv = mux(_ProbeDaemon(log, True, rep("connClosed")), log)
         retired.append(srv)
-        srv.events([socketutil.SocketConnection(_ProbeSock(log))])
-        inactive = [x for x in log[log.index("handleRequest") + 1:] if x in ("_clientDisconnect", "unregister", "close")]
+        quietly(lambda: srv.events([socketutil.SocketConnection(_ProbeSock(log))]))
+        inactive = [x for x in log[log.index("handleRequest") + 1:] if x in ("_clientDisconnect", "unregister", "close")] \
+            if "handleRequest" in log else ["(request not handled)"]
         inactive = [x for i, x in enumerate(inactive) if x not in inactive[:i]]
         log = []
         srv = mux(_ProbeDaemon(log, False), log)
         retired.append(srv)
-        srv._handleConnection(srv.sock)
+        quietly(lambda: srv._handleConnection(srv.sock))
         mux_timeout = [x[1] for x in log if isinstance(x, tuple) and x[0] == "handshake"] == [1.5]
         for x in retired:
             _retire(x)
@@ -686,6 +696,10 @@ def _run_chunk(ctx, gen, hists, do_model, state):
             outs = common.run_driver("drv_c06", [c[0] for c in checks])
             ctx.corr_cases += len(checks)
             for (l, r), o in zip(checks, outs):
+                # " IR!" / " IH!" are drv_c06's own cross-checks of C06's source transcriptions (Gen/C06.lean, which this
+                # check does not regenerate): not part of the classification
+                while o.endswith((" IR!", " IH!")):
+                    o = o[:-4]
                 if r != o:
                     ctx.mismatch("classify", {"line": l[:800]}, r[:300], o[:300])
     else:
